@@ -98,6 +98,90 @@ func lz4Literal(data []byte, declared uint32) []byte {
 	return append(out, data...)
 }
 
+// lz4Block decodes an LZ4 block (reference decoder of the block format, used only to tell whether a compressed
+// frame carried the canonical payload bytes). ok=false on malformed input.
+func lz4Block(src []byte, max int) ([]byte, bool) {
+	var dst []byte
+	i := 0
+	for i < len(src) {
+		tok := src[i]
+		i++
+		ll := int(tok >> 4)
+		if ll == 15 {
+			for {
+				if i >= len(src) {
+					return nil, false
+				}
+				c := src[i]
+				i++
+				ll += int(c)
+				if c != 255 {
+					break
+				}
+			}
+		}
+		if i+ll > len(src) || len(dst)+ll > max {
+			return nil, false
+		}
+		dst = append(dst, src[i:i+ll]...)
+		i += ll
+		if i >= len(src) {
+			return dst, true
+		}
+		if i+2 > len(src) {
+			return nil, false
+		}
+		off := int(src[i]) | int(src[i+1])<<8
+		i += 2
+		ml := int(tok & 15)
+		if ml == 15 {
+			for {
+				if i >= len(src) {
+					return nil, false
+				}
+				c := src[i]
+				i++
+				ml += int(c)
+				if c != 255 {
+					break
+				}
+			}
+		}
+		ml += 4
+		if off == 0 || off > len(dst) || len(dst)+ml > max {
+			return nil, false
+		}
+		for j := 0; j < ml; j++ {
+			dst = append(dst, dst[len(dst)-off])
+		}
+	}
+	return dst, true
+}
+
+// framePayload extracts the (decompressed) payload bytes of a P2P frame.
+func framePayload(fr []byte) ([]byte, bool) {
+	if len(fr) < 3 {
+		return nil, false
+	}
+	l, sz, ok := readVarRef(fr, 2)
+	if !ok || uint64(2+sz)+l > uint64(len(fr)) {
+		return nil, false
+	}
+	body := fr[2+sz : 2+sz+int(l)]
+	if fr[0]&byte(network.Compressed) == 0 {
+		return body, true
+	}
+	if len(body) < 4 {
+		return nil, false
+	}
+	n := int(binary.LittleEndian.Uint32(body))
+	if n > payload.MaxSize {
+		return nil, false
+	}
+	out, ok := lz4Block(body[4:], n)
+	return out, ok && len(out) == n
+}
+
 // ---- value-level extra laws -------------------------------------------------------------------------------------
 
 // txExtra: the hash/size of a transaction is the same on every path it can arrive by.
